@@ -49,12 +49,15 @@ package browse
 //@ func (github.com/tmpim/casket/caskethttp/staticfiles.FileServer).IsHidden
 //@   pure
 //@ func isSymlinkTargetDir
+//@   requires f != nil && config != nil && config.Fs.Root != nil
 //@ func isSymlink
 //@ extern (*net/url.URL).String
 
 //@ define shown(k int) bool = exists(j, 0, len(files), !config.Fs.IsHidden(files[j]) && fileInfos[k].Name == files[j].Name())
 //@ func directoryListing
 //@   requires config != nil && forall(j, 0, len(files), files[j] != nil)
+//@   // a browse configuration has its jailed file system (the setup builds it from the site's root)
+//@   requires config.Fs.Root != nil
 //@   ensures [no_hidden_listed] forall(k, 0, len(result0.Items), exists(j, 0, len(files), !config.Fs.IsHidden(files[j]) && result0.Items[k].Name == files[j].Name()))
 //@   loop 1 invariant 0 <= #i && #i <= len(files) && forall(k, 0, len(fileInfos), exists(j, 0, #i, !config.Fs.IsHidden(files[j]) && fileInfos[k].Name == files[j].Name()))
 
@@ -168,3 +171,12 @@ package browse
 //@   modifies ghost:parsedNow, ghost:registered, Dispenser.cursor, Dispenser.nesting
 //@   at call (*github.com/tmpim/casket/caskethttp/httpserver.SiteConfig).AddMiddleware before [registered_after_this_runs_own_parse] parsedNow == 1
 //@   ensures [one_handler_on_success_none_on_error] parsedNow == 1 && (result == nil ==> registered == 1) && (result != nil ==> registered == 0)
+
+//@ unit symlink_target frames=on props=C02 nilchecks=on filter=`browse\.isSymlinkTargetDir$`
+//@ // what directory_listing assumes of isSymlinkTargetDir (a look-up that writes nothing), verified
+//@ use @verif/specs/stdlib.spec:stdlib
+//@ func isSymlink
+//@ extern invoke:(net/http.File).Stat
+//@   ensures result1 == nil ==> result0 != nil
+//@ func isSymlinkTargetDir
+//@   requires f != nil && config != nil && config.Fs.Root != nil
